@@ -828,6 +828,10 @@ def gen_occlose_case(rng) -> dict | None:
         c["delays"] = [0]           # everything the peer sends is already there (pipelined behind the close)
     if not c["frames"] and rng.random() < 0.7:
         c["frames"] = [_valid(c["spec"], sers.gen_packet(rng, c["spec"], 4), c["conv"]) for _ in range(rng.choice([1, 2, 4]))]
+        lim_ = sers.limit_of(c["spec"])
+        if lim_ is not None:
+            # (as in gen_case: a frame that is not safely under the serializer's limit is not a "valid request")
+            c["frames"] = [f for f in c["frames"] if len(f["hex"]) // 2 < lim_]
     return c
 
 
